@@ -142,6 +142,17 @@ func (fr *Frame) invoke(cc *ssa.CallCommon, recv Value, args []Value, pc *Term, 
 	}
 	if isReadWriteSig(sig) && (mname == "Read" || mname == "Write") {
 		if mname == "Read" {
+			// framing must not depend on transport fragmentation: a plain Read may
+			// return fewer bytes than the buffer holds, so its count must be used
+			if fr.curSite != nil && !countUsed(fr.curSite) {
+				saved := ex.clauseProps
+				if contains(ex.curProps, "C16") {
+					ex.clauseProps = []string{"C16"}
+				}
+				ex.oblige("short-read", exprAtPos(ex, pos), pos, pc, False,
+					"the byte count of io.Reader.Read is ignored: a short read leaves the buffer partly filled (use io.ReadFull)")
+				ex.clauseProps = saved
+			}
 			return fr.modelRead(args[0], pc, st, false)
 		}
 		return fr.modelWrite(args[0], pc, st)
@@ -797,4 +808,26 @@ func isCtxDone(v ssa.Value) bool {
 		return false
 	}
 	return c.Call.IsInvoke() && c.Call.Method.Name() == "Done"
+}
+
+// countUsed: the first result (n) of the call is used by some instruction.
+func countUsed(site *ssa.Call) bool {
+	refs := site.Referrers()
+	if refs == nil {
+		return true
+	}
+	for _, r := range *refs {
+		ex, ok := r.(*ssa.Extract)
+		if !ok || ex.Index != 0 {
+			continue
+		}
+		if er := ex.Referrers(); er != nil {
+			for _, u := range *er {
+				if _, isDbg := u.(*ssa.DebugRef); !isDbg {
+					return true
+				}
+			}
+		}
+	}
+	return false
 }
